@@ -744,7 +744,39 @@ def witness_cull_none():
         shutil.rmtree(d, ignore_errors=True)
 
 
+def witness_cull_expired_first():
+    """cull() removes EVERY expired item before it looks at the size limit, also when more than one page (100 rows) of
+    them share one expire time; live items stay while the volume is below the limit."""
+    out = []
+    for policy in POLICIES:
+        for nexp in (100, 101, 150, 230):
+            d = tempfile.mkdtemp(prefix='c09exp-')
+            clock = instr.Clock(1000.0)
+            try:
+                with instr.Installed(clock):
+                    c = diskcache.Cache(d, eviction_policy=policy, cull_limit=0)
+                    for i in range(5):
+                        c.set('live%d' % i, i)
+                    for i in range(nexp):
+                        c.set('dead%03d' % i, i, expire=10)
+                    clock.set(1020.0)
+                    n = c.cull()
+                    keys = sorted(c)
+                    c.close()
+                live = [k for k in keys if k.startswith('live')]
+                dead = [k for k in keys if k.startswith('dead')]
+                if n != nexp or dead or len(live) != 5:
+                    out.append((policy, nexp, n, len(live), len(dead)))
+            finally:
+                shutil.rmtree(d, ignore_errors=True)
+    return out
+
+
 def witnesses(res):
+    for policy, nexp, n, nlive, ndead in witness_cull_expired_first()[:2]:
+        res.violations.append(fw.Violation('cull_expired_first', 'policy %s, volume far below size_limit: 5 live items and %d items expired at one instant; cull() returned %r '
+                                           'and left %d live / %d expired items (expected %d, 5, 0)' % (policy, nexp, n, nlive, ndead, nexp),
+                                           {'check': 'witness_cull_expired_first', 'policy': policy, 'expired': nexp}))
     n, left = witness_cull_none()
     res.witnessed[REGRESSION_SIG] = (n == 0 and left == 0)
     if n != 1 or left != 0:
